@@ -28,6 +28,7 @@ SEMANTIC = (
     "cannot show invariant holds",
     "failed precondition",
     "possible overflow",
+    "precondition not met",
 )
 # resource / tool limits -> undecided
 LIMITS = ("rlimit", "resource limit", "timed out", "timeout", "out of memory", "solver")
